@@ -862,4 +862,64 @@ theorem reach_sim {p : Params α} {s : State α} {log : List (List α × α)} (h
     rw [List.map_append, List.map_cons, List.map_nil, cRun_snoc p _ z hc]
     exact hc'
 
+/-! ## an executable list-level run (for computed examples) -/
+
+/-- one step of `lRun` -/
+def lStep (p : Params α) (o : Option (State α × List (List α × α))) (z : α) :
+    Option (State α × List (List α × α)) :=
+  o.bind fun sl => match prepare p sl.1 with
+    | .ok pr => some (commit p pr z, sl.2 ++ [(pr.point, z)])
+    | .error _ => none
+
+/-- the list-level run for the objective values `zs`: final state and evaluation log -/
+def lRun (p : Params α) : List α → Option (State α × List (List α × α))
+  | [] => none
+  | z :: zs => zs.foldl (lStep p) (some (firstIteration p z, [(firstPoint p, z)]))
+
+theorem lStep_reach {p : Params α} {acc : List α} {o : Option (State α × List (List α × α))}
+    (h : ∀ s log, o = some (s, log) → Reach p s log ∧ log.map (·.2) = acc) (z : α) :
+    ∀ s log, lStep p o z = some (s, log) → Reach p s log ∧ log.map (·.2) = acc ++ [z] := by
+  intro s log hs
+  cases o with
+  | none => cases hs
+  | some sl =>
+    obtain ⟨s0, log0⟩ := sl
+    obtain ⟨hre, hlog⟩ := h s0 log0 rfl
+    unfold lStep at hs
+    simp only [Option.bind_some] at hs
+    cases hp : prepare p s0 with
+    | error e => rw [hp] at hs; cases hs
+    | ok pr =>
+      rw [hp] at hs
+      simp only [Option.some.injEq, Prod.mk.injEq] at hs
+      obtain ⟨rfl, rfl⟩ := hs
+      exact ⟨hre.step z hp, by rw [List.map_append, hlog]; rfl⟩
+
+theorem lFold_reach {p : Params α} (zs : List α) {acc : List α}
+    {o : Option (State α × List (List α × α))}
+    (h : ∀ s log, o = some (s, log) → Reach p s log ∧ log.map (·.2) = acc) :
+    ∀ s log, zs.foldl (lStep p) o = some (s, log) → Reach p s log ∧ log.map (·.2) = acc ++ zs := by
+  induction zs generalizing acc o with
+  | nil => simpa using h
+  | cons z zs ih =>
+    intro s log hs
+    rw [List.foldl_cons] at hs
+    have := ih (lStep_reach h z) s log hs
+    simpa using this
+
+/-- what `lRun` returns is a reachable state with its log, and the logged values are `zs` -/
+theorem lRun_reach {p : Params α} {zs : List α} {s : State α} {log : List (List α × α)}
+    (h : lRun p zs = some (s, log)) : Reach p s log ∧ log.map (·.2) = zs := by
+  cases zs with
+  | nil => cases h
+  | cons z zs =>
+    have := lFold_reach (p := p) zs (acc := [z])
+      (o := some (firstIteration p z, [(firstPoint p, z)]))
+      (by
+        intro s log hs
+        simp only [Option.some.injEq, Prod.mk.injEq] at hs
+        obtain ⟨rfl, rfl⟩ := hs
+        exact ⟨Reach.first p z, rfl⟩) s log h
+    simpa using this
+
 end AGP
